@@ -610,6 +610,53 @@ fn slow_connect_case(c: &mut Ctx, fam: &str, idx: u64) {
     }
 }
 
+/// The transports that spread requests over others (load balancer, redundant) asked before any upstream was added, or
+/// after: whatever they hand out is a response to this request - QR set, its ID, its question - or an error.
+fn no_upstream_case(c: &mut Ctx, fam: &str, idx: u64) {
+    let which = if idx % 2 == 0 { "load_balancer" } else { "redundant" };
+    let rt = tokio::runtime::Builder::new_current_thread().enable_all().start_paused(true).build().unwrap();
+    let qn = {
+        let l = format!("n{}", idx);
+        let mut v = vec![l.len() as u8];
+        v.extend_from_slice(l.as_bytes());
+        v.extend_from_slice(b"\x04test\x00");
+        v
+    };
+    let qn2 = qn.clone();
+    let res = ctx::catch(|| {
+        rt.block_on(async move {
+            let conn: Conn = if which == "load_balancer" {
+                let (conn, tr) = load_balancer::Connection::new();
+                tokio::spawn(tr.run());
+                Box::new(conn)
+            } else {
+                let (conn, tr) = redundant::Connection::new();
+                tokio::spawn(tr.run());
+                Box::new(conn)
+            };
+            let mut gr = conn.send_request(mk_request(&qn2));
+            tokio::time::timeout(Duration::from_secs(600), gr.get_response()).await.map(|r| r.map(|m| m.as_slice().to_vec()).map_err(|e| format!("{}", e)))
+        })
+    });
+    drop(rt);
+    let ex = json!({"transport": which, "upstreams": 0});
+    c.eval(&("no-upstream", which));
+    match res {
+        Err(pi) => c.violation(&format!("panic:{}", pi.site()), &format!("panic in the {} client transport without upstreams: {} at {}:{}", which, pi.msg, pi.file, pi.line), c.replay_of(fam, idx, ex)),
+        Ok(Err(_)) => c.violation(&format!("never-completes:{}:no-upstream", which), "a request to a transport without upstreams never completed (600 s)", c.replay_of(fam, idx, ex)),
+        Ok(Ok(Err(_))) => c.count("no_upstream_requests_failed", 1),
+        Ok(Ok(Ok(m))) => {
+            let ok = w::parse_message(&m).map(|pm| pm.flags & 0x8000 != 0 && pm.flags & 0xf != 0 && pm.questions.first().map(|q| w::lower(&q.name)) == Some(w::lower(&qn))).unwrap_or(false);
+            if !ok {
+                let sig = if m.len() > 2 && m[2] & 0x80 == 0 { format!("not-a-response:{}", which) } else { format!("made-up-answer:{}:no-upstream", which) };
+                c.violation(&sig, &format!("a {} transport without any upstream hands its caller {} - no response to the request (QR set, an error code, its question)", which, hex(&m[..m.len().min(60)])), c.replay_of(fam, idx, ex));
+            } else {
+                c.count("no_upstream_error_responses", 1);
+            }
+        }
+    }
+}
+
 const TRANSPORTS: [&str; 6] = ["dgram", "stream", "multi_stream", "dgram_stream", "redundant", "load_balancer"];
 
 fn one_case(c: &mut Ctx, fam: &str, idx: u64, threads: bool) {
@@ -1004,6 +1051,10 @@ pub fn run(c: &mut Ctx) {
     for idx in c.cases(fam, total) {
         ctx::slot_write(idx, &format!("{}|case", fam), &[]);
         long_connection_case(c, fam, idx);
+    }
+    let fam = "no-upstream";
+    for idx in c.cases(fam, 4) {
+        no_upstream_case(c, fam, idx);
     }
     let fam = "slow-connect";
     let total = c.total(200, 20_000);
